@@ -54,6 +54,11 @@ def check_vmerge_rows(ctx: Ctx, limit_envs=24):
         seen.add(key)
         t1, t2 = str(m1), str(m2)
         n += 1
+        # hypothesis vmerge_names of C12: a merged version atom mentions only the variables of the two atoms
+        extra_vars = mg.variables(r) - {m1.name, m2.name}
+        if extra_vars:
+            ctx.finding(f"vmerge-vars|{t1}|{t2}", "_merge_single_markers result mentions a variable of neither atom (hypothesis vmerge_names of C12 fails on the code)",
+                        {"a": t1, "b": t2, "is_and": kind}, sorted({m1.name, m2.name}), {"result": str(r), "extra": sorted(extra_vars)})
         for env in mg.env_grid([t1, t2], rng, limit=limit_envs):
             try:
                 exp = (m1.evaluate(env) and m2.evaluate(env)) if kind else (m1.evaluate(env) or m2.evaluate(env))
@@ -160,7 +165,7 @@ def clear():
     props_marker.clear_caches()
 
 
-def stream_smark(ctx: Ctx, n_pairs: int, texts=None, with_parse=True, with_only=True, with_eval=True):
+def stream_smark(ctx: Ctx, n_pairs: int, texts=None, with_parse=True, with_only=True, with_eval=True, only_rate=0.3):
     from packaging.markers import Marker
     from dep_logic.markers import parse_marker
     import props_marker as pm
@@ -207,7 +212,16 @@ def stream_smark(ctx: Ctx, n_pairs: int, texts=None, with_parse=True, with_only=
                 ctx.coverage["streams"]["S-mark-timeouts"] = ctx.coverage["streams"].get("S-mark-timeouts", 0) + 1
                 continue
             add(op, (lambda k, op=op, tb=rec.table(), ca=ca, cb=cb, r=r: f"{op} {tb} {k}%nat {ca} {cb} {r}"), f"({ta}) {'&' if op == 'MCAnd' else '|'} ({tb})")
-        if with_only and rng.random() < 0.3:
+        if with_only and rng.random() < only_rate:
+            # only()/exclude() on the operand, or (half of the time) on the result of a | b / a & b: that is where conjunctions with nested unions come from
+            if rng.random() < 0.5:
+                try:
+                    with Uncached():
+                        a2 = with_timeout(0.4, lambda: (a | b) if rng.random() < 0.6 else (a & b))
+                    ca2 = cmarker(a2)
+                    a, ca, ta = a2, ca2, f"[({ta}) |& ({tb})]"
+                except Exception:  # noqa: BLE001
+                    pass
             vs = sorted(mg.variables(a))
             if vs:
                 v = rng.choice(vs)
